@@ -89,7 +89,7 @@ def migration_ackonly(r, idx):
     Its address changes in the middle (a NAT rebinding; the old address still receives), and from then
     on its acknowledgements - ordinary, non-probing packets - come from the new address: the server
     has to follow them there, validate the path and finish the transfer."""
-    cfg = base_cfg(r, server={"idle_ms": 0, "cc": r.choice(["fixed:12000", "fixed:6000"])}, client={"idle_ms": 0})
+    cfg = base_cfg(r, server={"idle_ms": 0, "cc": r.choice(["fixed:12000", "fixed:6000"])}, client={"idle_ms": 0, "recv_window": 1000000000, "stream_recv_window": 100000000})     # no credit updates: nothing but ACKs
     cfg["migration"] = True
     cfg["keep_old_addrs"] = True
     cfg["latency_us"] = r.choice([5000, 10000, 20000])
